@@ -153,14 +153,14 @@ theorem interpDT_unitVariant_scalar (ext : Ext) (dt : DataType) (n : Bool) (md :
   cases dt <;> simp [isScalarDT, kindOf] at h <;> simp only [interpDT]
 
 theorem pushByteElems_interp (ext : Ext) (large : Bool) : ∀ (bs : Bytes) (el : B) (offs : List Int) (r : B × List Int)
-    (cdt : DataType) (cn : Bool) (cmd : Metadata) (ls : List LVal), WFB el → Shape el cdt cn cmd →
+    (cdt : DataType) (cn : Bool) (cmd : Metadata) (ls : List LVal), WFB el → Safe el → Shape el cdt cn cmd →
     pushByteElems ext large el offs bs = .ok r → dec r.1 = dec el ++ ls →
     bs.mapM (fun x => interpScalar ext cdt (.int .u8 x.toNat)) = .ok ls
-  | [], el, offs, r, cdt, cn, cmd, ls, _, _, h, hd => by
+  | [], el, offs, r, cdt, cn, cmd, ls, _, _, _, h, hd => by
     simp [pushByteElems] at h; subst h
     have : ls = [] := by simpa using hd
     subst this; rfl
-  | x :: rest, el, offs, r, cdt, cn, cmd, ls, hwf, hs, h, hd => by
+  | x :: rest, el, offs, r, cdt, cn, cmd, ls, hwf, hsf, hs, h, hd => by
     simp only [pushByteElems] at h
     obtain ⟨o', h1, h⟩ := (bind_ok _ _ _).1 h
     obtain ⟨el', h2, h⟩ := (bind_ok _ _ _).1 h
@@ -168,11 +168,12 @@ theorem pushByteElems_interp (ext : Ext) (large : Bool) : ∀ (bs : Bytes) (el :
     obtain ⟨base, l, rfl⟩ := incrementLast_form h1
     have := incrementLast_snoc h1
     subst this
-    obtain ⟨hel', lv, hdec, _⟩ := pushScalar_appends ext el _ el' hwf h2
+    obtain ⟨hel', lv, hdec, _⟩ := pushScalar_appends ext el _ el' hwf hsf h2
+    have hsf' := Safe.of_takeRest (pushScalar_takeRest ext el _ el' h2) hsf
     obtain ⟨hi, _⟩ := pushScalar_interp ext el _ el' cdt cn cmd lv hwf hs h2 hdec
-    obtain ⟨_, ls', hd', _⟩ := pushByteElems_appends ext large rest el' base (l + 1) r hel' h
+    obtain ⟨_, ls', hd', _⟩ := pushByteElems_appends ext large rest el' base (l + 1) r hel' hsf' h
     have hs' := Shape.of_takeRest (pushScalar_takeRest ext el _ el' h2) hs
-    have ih := pushByteElems_interp ext large rest el' _ r cdt cn cmd ls' hel' hs' h hd'
+    have ih := pushByteElems_interp ext large rest el' _ r cdt cn cmd ls' hel' hsf' hs' h hd'
     have : ls = lv :: ls' := by
       rw [hd', hdec, List.append_assoc] at hd
       exact (List.append_cancel_left hd).symm
@@ -184,7 +185,7 @@ theorem pushByteElems_interp (ext : Ext) (large : Bool) : ∀ (bs : Bytes) (el :
 
 theorem interpDT_tupleVariant (ext : Ext) (ufs : UFields) (mode : UnionMode) (n : Bool) (md : Metadata) (a : String)
     (i : Nat) (vn : String) (xs : SVals) (tid : Int) (nm : String) (cdt : DataType) (cn : Bool) (cmd : Metadata)
-    (lvc : LVal) (hufs : ufs.toList[i]? = some (tid, .mk nm cdt cn cmd)) (h : seqSpec ext cdt cmd xs = .ok lvc) :
+    (lvc : LVal) (hufs : ufs.toList[i]? = some (tid, .mk nm cdt cn cmd)) (h : seqSpec ext true cdt cmd xs = .ok lvc) :
     interpDT ext (.union ufs mode) n md (.tupleVariant a i vn xs) = .ok (.union tid lvc) := by
   simp only [interpDT, hufs]
   unfold seqSpec at h
@@ -192,7 +193,7 @@ theorem interpDT_tupleVariant (ext : Ext) (ufs : UFields) (mode : UnionMode) (n 
   · simp [hu, fail] at h
   · simp only [hu, Bool.false_eq_true, if_false] at h ⊢
     cases cdt
-    case struct cfs => simp only at h ⊢; rw [h]; rfl
+    case struct cfs => simp only [if_true] at h ⊢; rw [h]; rfl
     case list f =>
       cases f
       simp only at h ⊢
@@ -491,7 +492,7 @@ theorem push_interp (ext : Ext) : ∀ (x : SVal) (b b' : B) (dt : DataType) (n :
       obtain ⟨rfl, _⟩ := setValidity_ok hw'.2.1 h1
       obtain ⟨l, hl, rfl⟩ := duplicateLast_ok h2
       rw [hw'.1.2.1] at hl; cases hl
-      obtain ⟨hel, ls, hdec, ho⟩ := pushByteElems_appends ext large bs el _ _ _ hw'.2.2 h3
+      obtain ⟨hel, ls, hdec, ho⟩ := pushByteElems_appends ext large bs el _ _ _ hw'.2.2 (by simpa [Safe] using hs) h3
       simp only at hel hdec ho
       subst ho
       have := list_step hwf true ls hel hdec
@@ -500,7 +501,7 @@ theorem push_interp (ext : Ext) : ∀ (x : SVal) (b b' : B) (dt : DataType) (n :
       subst hlv
       simp only [Shape] at hsh
       obtain ⟨_, cname, cdt, cn, cmd, rfl, hsel⟩ := hsh
-      have hi := pushByteElems_interp ext large bs el _ _ cdt cn cmd ls hw'.2.2 hsel h3 hdec
+      have hi := pushByteElems_interp ext large bs el _ _ cdt cn cmd ls hw'.2.2 (by simpa [Safe] using hs) hsel h3 hdec
       cases large <;> simp [interpDT, isUnknownVariant, hi, bind, Except.bind, pure, Except.pure]
     | _ =>
       simp only [push, ctx_ok] at h
